@@ -28,9 +28,27 @@ theorem mutexOrds_eq : Tie.mutexOrds = mo0 := by decide
 theorem mutexConsts_eq : Tie.mutexConsts = mc0 := by decide
 theorem protoProblems_eq : Gen.protoProblems = [] := rfl
 theorem protoNames_eq : Gen.protoNames =
-    ["RawMutexLock_try_lock", "RawMutexLock_unlock", "spin_cond", "RawMutexLock_lock_no_inline", "RawMutexLock_lock",
+    ["Signal_new_async", "Signal_new_async_ptr", "Signal_new_sync", "Signal_will_wake", "Signal_register_waker", "Signal_set_ptr",
+     "Signal_assume_init", "Signal_load_and_drop",
+     "RawMutexLock_try_lock", "RawMutexLock_unlock", "spin_cond", "RawMutexLock_lock_no_inline", "RawMutexLock_lock",
      "Signal_poll", "Signal_is_terminated", "Signal_async_blocking_wait", "Signal_wait", "Signal_wait_timeout",
      "Signal_wake", "Signal_send", "Signal_send_copy", "Signal_recv", "Signal_terminate"] := rfl
+
+/-! ### constructors and accessors of `Signal` -/
+
+/-- every signal starts `LOCKED` (= `SigM.init`'s word), with the waker kind of its constructor -/
+theorem new_signal_eq : Gen.Signal_new_async = (2, .none) ∧ Gen.Signal_new_async_ptr = (2, .none) ∧ Gen.Signal_new_sync = (2, .sync) ∧
+    ProtoConf.St.toNat .locked = 2 := ⟨rfl, rfl, rfl, rfl⟩
+
+/-- `will_wake` is the standard library's `Waker::will_wake` on the registered task waker (only futures have one) -/
+theorem will_wake_eq (fuel : Nat) (k : Bool → PAct) :
+    Gen.Signal_will_wake fuel .async k = .askB .stdWillWake k ∧
+    Gen.Signal_will_wake fuel .sync k = .unreachable ∧ Gen.Signal_will_wake fuel .none k = .unreachable := ⟨rfl, rfl, rfl⟩
+
+/-- `register_waker` stores a clone of the supplied waker, `set_ptr` the slot pointer; `assume_init` / `load_and_drop` read the payload slot once -/
+theorem accessors_eq (fuel : Nat) (wk : WakerKind) (k : Unit → PAct) :
+    Gen.Signal_register_waker fuel wk k = .eff .storeWaker (k ()) ∧ Gen.Signal_set_ptr fuel wk k = .eff .storePtr (k ()) ∧
+    Gen.Signal_assume_init fuel wk k = .eff .ptrRead (k ()) ∧ Gen.Signal_load_and_drop fuel wk k = .eff .ptrRead (k ()) := ⟨rfl, rfl, rfl, rfl⟩
 
 /-! ### Waiter side -/
 section waiter
@@ -586,7 +604,7 @@ end tree
 /-- **Every generated protocol tree conforms to its model**, with the orderings and constants extracted from the
     source, for every fuel and every conforming continuation; the translator reported no problem. -/
 theorem proto_conforms :
-    Gen.protoProblems = [] ∧ Gen.protoNames.length = 15 ∧
+    Gen.protoProblems = [] ∧ Gen.protoNames.length = 23 ∧
     -- waiter side
     (∀ (Q : Option Bool → WKind → WPc → Prop) (fuel : Nat) (k : Bool → PAct),
       (∀ v b, v ≠ .locked → WConf C07.treeOrds Q (k (St.toNat v == 0)) .sync (.done v b)) →
@@ -663,6 +681,9 @@ end Kanal.TieProto
 #print axioms Kanal.TieProto.mutexConsts_eq
 #print axioms Kanal.TieProto.protoProblems_eq
 #print axioms Kanal.TieProto.protoNames_eq
+#print axioms Kanal.TieProto.new_signal_eq
+#print axioms Kanal.TieProto.will_wake_eq
+#print axioms Kanal.TieProto.accessors_eq
 #print axioms Kanal.TieProto.wait_conf
 #print axioms Kanal.TieProto.wait_timeout_conf
 #print axioms Kanal.TieProto.is_terminated_conf
